@@ -1,2 +1,37 @@
+// ---- property-level theorems over write_http_response's contract
+// C06: a response that would duplicate an automatic field (or is not a normal response) is refused before any byte
+// is written, with the specific error
+pub proof fn thm_refused_before_any_byte<W: AsyncWrite>(writer: W, resp: Response, close: bool, r: Result<(), HttpError>)
+    requires write_post(writer, resp, close, r), wr_guard(resp) is Some
+    ensures r is Err, r->Err_0 == wr_guard(resp)->Some_0, writer.end() == writer.cur()
+{}
+// C06: on success exactly the one serialisation went out: head (status line, automatic fields, own fields in
+// order, blank line) followed by the framed body; a known length is honoured exactly
+pub proof fn thm_written_is_serialisation<W: AsyncWrite>(writer: W, resp: Response, close: bool, r: Result<(), HttpError>)
+    requires write_post(writer, resp, close, r), r is Ok
+    ensures wr_guard(resp) is None,
+        writer.end() == writer.cur() + (status_line(resp.code) + auto_fields(resp, close) + fields(resp.headers.0@) + crlf()) + body_wire(resp.body),
+        blen(resp.body) matches Some(n) ==> body_wire(resp.body).len() == n,
+{
+    lemma_head_readable(resp, close);
+    assert(writer.cur() + ser(resp, close) =~= writer.cur() + (status_line(resp.code) + auto_fields(resp, close) + fields(resp.headers.0@) + crlf()) + body_wire(resp.body));
+}
+// C08: whatever fails -- the socket after any number of bytes, a body source that cannot be opened, fails while
+// being read or is shorter than declared -- what was written is a prefix of that serialisation, and the call
+// reports an error
+pub proof fn thm_failure_leaves_prefix<W: AsyncWrite>(writer: W, resp: Response, close: bool, r: Result<(), HttpError>)
+    requires write_post(writer, resp, close, r), r is Err
+    ensures writer.cur().is_prefix_of(writer.end()), writer.end().is_prefix_of(writer.cur() + ser(resp, close)),
+{
+    if wr_guard(resp) is Some {
+        assert(writer.cur() + ser(resp, close) =~= writer.cur() + ser(resp, close));
+    }
+}
+// C08: a body of known length n that delivers fewer than n bytes can never be reported as sent
+pub proof fn thm_short_body_is_error<W: AsyncWrite>(writer: W, resp: Response, close: bool, r: Result<(), HttpError>)
+    requires write_post(writer, resp, close, r), wr_guard(resp) is None,
+        blen(resp.body) is Some, bytes_of(body_events(resp.body)).len() < blen(resp.body)->Some_0,
+    ensures r is Err
+{}
 // vacuity canary: must fail
 proof fn canary_respwrite() { assert(false); }
